@@ -11,13 +11,18 @@ def make(prop, rule_text, hostile_names):
         q = tier == "quick"
         specs = shards("direct", 30000 if q else 2000000, 2500 if q else 50000, seed)
         specs += shards("parsed", 3000 if q else 100000, 250 if q else 4000, seed)
+        specs += shards("reused_compiler", 8000 if q else 400000, 2000 if q else 40000, seed)
         return specs
 
-    def one_direct(seed, i, M):
-        r = rng(seed, prop, "direct", i)
+    def one_direct(seed, i, M, compiler=None, spec=None):
+        r = rng(seed, prop, "direct" if compiler is None else "reused", i)
         doc = pc.AstGen(r, hostile_names=hostile_names).doc()
         k = pc.assign_ids(doc)
         case = {"kind": "ast", "family": "direct", "index": i, "seed": seed, "doc": doc, "next_id": k}
+        if compiler is not None:
+            M.case(h64(doc))
+            pc.compare(doc, "features/x.feature", k, prop, M, {"kind": "shard", "spec": spec, "index": i}, compiler=compiler)
+            return
         M.case(h64(doc))
         M.hist("shapes", pc.shape_of(doc))
         M.cover("shapes", pc.shape_of(doc))
@@ -36,11 +41,19 @@ def make(prop, rule_text, hostile_names):
         pc.compare(ast, "features/x.feature", k, prop, M, case)
 
     def run_shard(spec, M):
+        if spec["family"] == "reused_compiler":
+            from gherkin.pickles.compiler import Compiler
+            comp = Compiler()          # one Compiler (and its id generator) for every document of the shard
+            for i in range(spec["start"], spec["start"] + spec["n"]):
+                one_direct(spec["seed"], i, M, compiler=comp, spec=spec)
+            return
         for i in range(spec["start"], spec["start"] + spec["n"]):
             (one_direct if spec["family"] == "direct" else one_parsed)(spec["seed"], i, M)
 
     def replay(case, M):
-        if case["kind"] == "ast":
+        if case["kind"] == "shard":
+            run_shard(case["spec"], M)
+        elif case["kind"] == "ast":
             pc.compare(case["doc"], "features/x.feature", case["next_id"], prop, M, case)
         else:
             one_parsed(case["seed"], case["index"], M)
